@@ -195,7 +195,8 @@ CLAIMED["C20"] = dict(
          "disabled, lzma preset 6) - and the agreement of the three routes. TLC enumerates EVERY combination of -w/-v/--no_stl/-d/--werror/--lzma_preset/-s "
          "(with -o); for the selected combinations and programs the harness runs `fj ... -o`, `fj --asm -o` + `fj --run` (subprocesses) and "
          "flipjump.assemble/run (one long-lived interpreter), records width/version header fields and digest of each .fjm, program output and "
-         "termination, and TLC judges every record (Trace_FJCli): header = Effective, byte-identical files across routes, equal runs.",
+         "termination, and TLC judges every record (Trace_FJCli): header = Effective, byte-identical files across routes, equal runs; the one-call "
+         "convenience route flipjump.assemble_and_run must behave like assemble + run.",
     note="The default version WITHOUT -o (documented: 1) is not observable from outside the command and is not judged. Quick runs a seeded subset "
          "of the 720 combinations (all -v rows always); thorough runs more.",
     ref="DESIGN.md section 2 (C20)",
@@ -230,7 +231,8 @@ CLAIMED["C08"] = dict(
          "write_hex/byte (single, and_inc, n, nth), xor_hex/byte_to_ptr (single, and_inc, n), xor_hex/byte_from_ptr, zero_ptr, ptr_flip, ptr_flip_dbit, ptr_wflip, "
          "ptr_wflip_2nd_word, ptr_jump, push_hex/byte, pop_hex/byte, push n, pop n, sp_inc/dec/add/sub, stl.get_sp, the bit-namespace ptr_inc/dec/jump/flip/"
          "flip_dbit/wflip/wflip_2nd_word/xor_to_ptr/xor_from_ptr (w = 16, 32, 64), and call trees of stl.call/return, call with parameters, fcall/fret, "
-         "balanced push/pop around calls and run-time recursion. The arena device translates index <-> address, points the pointers at every cell of the "
+         "balanced push/pop around calls and run-time recursion, and the byte-buffer helpers of hex/strings.fj (input_ptr_line, print_ptr_text, "
+         "print_ptr_line, fill_bytes, copy_bytes) with scripted input and captured output. The arena device translates index <-> address, points the pointers at every cell of the "
          "buffers, runs sequences of macro applications without resetting the library's shared to_flip/to_jump ops, and TLC (Trace_Stl) prescribes after "
          "every step every variable, every cell of every buffer (data byte and flip-word view: the 'nowhere else' clause), the branch taken, sp and the output.",
     note="Trusted: StlSem.tla (pointer part) as transcription of the documentation. Pointed cells lie inside the observed buffers (12 cells, first 40 stack cells); "
@@ -248,7 +250,7 @@ CLAIMED["C09"] = dict(
          "consumed. Inputs: numerals at every boundary (0, powers of ten, 16^n +-1, most negative), an invalid byte at every position, empty input, missing "
          "terminators, leading zeros and signs.",
     note="Trusted: StlSem.tla (IO part) as transcription of the documentation. After a step's input the device serves zero bits (a real end of input ends the "
-         "whole run). The pointer-based buffer helpers of hex/strings.fj are not covered here. Values and inputs are seeded samples with boundary bias.",
+         "whole run). The pointer-based buffer helpers of hex/strings.fj are judged with the pointer macros (C08). Values and inputs are seeded samples with boundary bias.",
     ref="DESIGN.md section 2 (C04-C09)",
     technique="TLA+ per-macro IO semantics evaluated by TLC as oracle for arena behaviours with scripted input and captured output")
 
